@@ -202,8 +202,23 @@ fn run_sub(s: &Sub, events: Vec<Ev>, reads: &ReadPlan, rereads: &[usize], ctx: &
             Mode::Corrupt(_) => true,
             Mode::IoErr(..) => false,
         };
+    // an injected I/O error other than Interrupted (which std's read_exact / read_until / read_to_end retry) that lies where the
+    // client has to read through it - inside the frame, or anywhere in a close-delimited body - must surface: an error
+    // swallowed into a clean end presents an aborted body as a finished one
+    let io_must_surface = match s.mode {
+        Mode::IoErr(k, kind, _) => kind != Kind::Interrupted && k >= head_end && (!framed || k < frame_end),
+        _ => false,
+    };
+    let swallowed = |what: &str| Outcome::fail(format!("C02:io-error-swallowed:{fname}"), format!("{what} although the transport failed with {:?}", s.mode));
     match consume(resp, reads, rereads, s.payload.len()) {
         Consumed::Hist(h) => {
+            if io_must_surface {
+                if let Some(e) = h.eof_at {
+                    if h.err_at.map_or(true, |x| x > e) {
+                        return swallowed(&format!("a read returned Ok(0) after {} payload bytes with no error before it", h.delivered.len()));
+                    }
+                }
+            }
             if h.bad_count {
                 return Outcome::fail("C02:bad-read-count", "read returned more than the buffer size");
             }
@@ -242,6 +257,9 @@ fn run_sub(s: &Sub, events: Vec<Ev>, reads: &ReadPlan, rereads: &[usize], ctx: &
         }
         Consumed::Helper(r) => match r {
             Ok(v) => {
+                if io_must_surface {
+                    return swallowed(&format!("helper returned Ok({} bytes)", v.len()));
+                }
                 if must_fail {
                     return Outcome::fail(
                         format!("C02:helper-ok-on-incomplete:{fname}"),
@@ -260,6 +278,9 @@ fn run_sub(s: &Sub, events: Vec<Ev>, reads: &ReadPlan, rereads: &[usize], ctx: &
         },
         Consumed::Text(r) => match r {
             Ok(t) => {
+                if io_must_surface {
+                    return swallowed("text_utf8 returned Ok");
+                }
                 if must_fail {
                     return Outcome::fail(format!("C02:helper-ok-on-incomplete:{fname}"), format!("text_utf8 returned Ok for fault {:?}", s.mode));
                 }
@@ -271,6 +292,9 @@ fn run_sub(s: &Sub, events: Vec<Ev>, reads: &ReadPlan, rereads: &[usize], ctx: &
         },
         Consumed::Json(r) => match r {
             Ok(v) => {
+                if io_must_surface {
+                    return swallowed("json() returned Ok");
+                }
                 if must_fail {
                     return Outcome::fail(format!("C02:helper-ok-on-incomplete:{fname}"), format!("json() returned Ok({v}) for fault {:?}", s.mode));
                 }
